@@ -83,12 +83,14 @@ def gen_nm(r, max_nm=50, min_nm=1, ns=(1, 2, 3, 4, 5, 6, 7)):
     raise RuntimeError("no admissible (N, m)")
 
 
-def mk_ev(lo, hi, n, m, via=None):
+def mk_ev(lo, hi, n, m, via=None, plain=False):
     """an Evolvent configured with the box [lo, hi]: built directly, or (about 30 % of the parameter sets, decided by a hash of
     the parameters so that a replay takes the same route) built on a DIFFERENT box and re-configured with SetBounds - the
     "configured bounds" of the properties are the current ones whichever way they were set"""
     from iOpt.evolvent.evolvent import Evolvent
     lo_a, hi_a = np.array(lo, dtype=np.double), np.array(hi, dtype=np.double)
+    if plain:
+        return Evolvent(lo_a, hi_a, n, m)
     if via is None:
         import zlib
         h = zlib.crc32(repr((list(map(float, lo)), list(map(float, hi)), n, m)).encode())
